@@ -23,6 +23,12 @@ Classes closed in later rounds: the words argument in every form and order; cust
 length 1 and 2 (list / ndarray / slice) x polarity (gain < 0) x every discriminant that ranks by the leak; precision x offset
 (baseline 30000, float64) for every class, the template profile being recomputed by the harness from the building traces.
 
+Round 4: non-default guesses (ranges with a non-zero start, stepped, descending; ndarray subsets and permutations, always holding
+the true key values): the certificate works on guess VALUES -- argmax index -> the guess the campaign ASKED for (not sf.guesses
+read back); interrupted runs (run(A), run(B) raising after 1-3 batches, run(B) again on every attack object: the rows fed are
+A + the processed prefix of B + B); histories in which 2-3 selection function objects with different guesses / words are all
+constructed first and used in another order.
+
 Second kind, campaign HISTORIES: one selection function object and one model object re-used for 2-3 campaigns under different
 keys / plaintext sets / batch sizes, compute_expected_key asked before the run, after it and once more, attack objects run()
 twice on containers of the same key; every campaign of the history is certified as above (state kept between campaigns).
